@@ -112,7 +112,11 @@ ENTRIES = {
              "checks the invariances directly. In addition GaussianDBALScorer.score, the heteroscedastic / homoscedastic entry points, the padding function and the shape-check and index-to-triple statement runs of the vectorized kernel are re-translated from /repo's source on every run and C05_model_is_source_* prove the model equal to the translations; the kernel's tensor expressions stay with the correspondence.",
         note="Trusted: Coq kernel, extraction, OCaml driver with libm oracles, harness; numpy broadcasting/fancy indexing rendered pointwise; "
              "scipy 1.17.1 logsumexp algorithm modelled; unranking is Model/Unrank.v (C15); tolerance 1e-9*max(1,|score|), -inf exact; "
-             "distance_factor>0, variances>0 in generated cases; four in-memory mutants re-run as self-tests on every check."),
+             "distance_factor>0, variances>0 in generated cases; four in-memory mutants re-run as self-tests on every check. "
+             "The defect found here in round 2 (the dense array took the dtype of the FIRST plate, so a float32 first plate lowered the other "
+             "plates' scores to single precision) was repaired in /repo (fix: np.result_type over all arrays and the pad value); the dtype of the "
+             "allocation is modelled (pad_dtype), proved to hold every plate's dtype in any order (C05_pad_dtype_*), the pre-repair choice refuted, "
+             "and kinds dtype / pad-dtype judge it on the implementation (witness: corpus/C05)."),
     "C06": dict(
         text="Theorems (all screens as row lists, all observation patterns incl. partly observed plates, all batches with at least one known id "
              "or empty, all n_chunks >= 1 incl. more chunks than plates, any scorer function, any score keys incl. -inf and ties, any combine "
